@@ -14,7 +14,8 @@ P(n, s) == [i \in 1..n |-> (s + 17 * i) % 256]
 Valid == { <<NOOP>>, <<MSS, 4>> \o P(2, 1), <<WS, 3, 7>>, <<SACKP, 2>>, <<TS, 10>> \o P(8, 3),
            <<SACK, 10>> \o P(8, 5), <<SACK, 18>> \o P(16, 6), <<SACK, 26>> \o P(24, 7), <<SACK, 34>> \o P(32, 8) }
 Odd == { <<END>>, <<MSS, 3, 1, 2>>, <<MSS, 5, 1, 2, 3>>, <<WS, 2, 1>>, <<WS, 4, 1, 2>>, <<SACKP, 3, 0>>, <<SACKP, 0>>, <<TS, 9>> \o P(8, 3),
-         <<SACK, 9>> \o P(8, 5), <<SACK, 11>> \o P(9, 5), <<SACK, 17>> \o P(16, 5), <<SACK, 35>> \o P(33, 5), <<SACK, 2>>, <<9, 4, 0, 0>>, <<255>>, <<6, 1>> }
+         <<SACK, 9>> \o P(8, 5), <<SACK, 11>> \o P(9, 5), <<SACK, 17>> \o P(16, 5), <<SACK, 35>> \o P(33, 5), <<SACK, 2>>,
+         <<SACK, 14>> \o P(12, 5), <<SACK, 22>> \o P(20, 5), <<SACK, 30>> \o P(28, 5), <<SACK, 6>> \o P(4, 5), <<SACK, 12>> \o P(10, 5), <<9, 4, 0, 0>>, <<255>>, <<6, 1>> }
 Tokens == Valid \cup Odd
 RECURSIVE Cat(_)
 Cat(ts) == IF ts = <<>> THEN <<>> ELSE Head(ts) \o Cat(Tail(ts))
